@@ -136,10 +136,12 @@ pub fn gen_size(g: &mut Gen, mode: Mode, cfg: &PicCfg) -> Size {
                     *g.pick(&opts)
                 }
                 4 if cfg.extreme_aspect => {
+                    // long thin pictures, incl. the very top of the 16-bit size range
+                    let long = if g.chance(1, 3) { g.range(65500, 65535) } else { g.range(300, 2000) } as u16;
                     if g.bool() {
-                        Size::Custom16(g.range(300, 2000) as u16, g.range(1, 5) as u16)
+                        Size::Custom16(long, g.range(1, 5) as u16)
                     } else {
-                        Size::Custom16(g.range(1, 5) as u16, g.range(300, 1500) as u16)
+                        Size::Custom16(g.range(1, 5) as u16, long)
                     }
                 }
                 _ => {
@@ -268,10 +270,14 @@ pub enum Shape {
     Col,
     Dense,
     Sparse,
+    /// every position from the first available one to 63 carries an event (run 0 throughout):
+    /// 64 events in an inter block, 63 in an intra block
+    Full,
 }
 
 pub fn gen_shape(g: &mut Gen) -> Shape {
-    match g.weighted(&[6, 3, 2, 2, 2, 3]) {
+    match g.weighted(&[12, 6, 4, 4, 4, 6, 1]) {
+        6 => Shape::Full,
         0 => Shape::Empty,
         1 => Shape::Single,
         2 => Shape::Row,
@@ -297,6 +303,11 @@ pub fn gen_events(g: &mut Gen, hdr: &Header, first: usize, shape: Shape) -> Vec<
             }
             if positions.is_empty() {
                 positions.push(set[g.range(1, 7) as usize]);
+            }
+        }
+        Shape::Full => {
+            for p in first..=63 {
+                positions.push(p);
             }
         }
         Shape::Dense => {
@@ -464,8 +475,45 @@ pub fn gen_intra_pic(g: &mut Gen, cfg: &PicCfg) -> Pic {
 }
 
 /// A predicted picture with the same mode / size as `like`. `ptype` is P or D.
+/// Another header spelling of exactly the same dimensions (fixed-format code vs custom size,
+/// 8-bit vs 16-bit custom size), when one exists.
+pub fn respell(g: &mut Gen, mode: Mode, size: Size) -> Size {
+    let (w, h) = match size.dims() {
+        Some(d) => d,
+        None => return size,
+    };
+    let mut opts: Vec<Size> = vec![size];
+    match mode {
+        Mode::Sorenson => {
+            if w <= 255 && h <= 255 {
+                opts.push(Size::Custom8(w as u8, h as u8));
+            }
+            opts.push(Size::Custom16(w as u16, h as u16));
+            for fixed in [Size::Cif, Size::Qcif, Size::Sqcif, Size::S320x240, Size::S160x120] {
+                if fixed.dims() == Some((w, h)) {
+                    opts.push(fixed);
+                }
+            }
+        }
+        Mode::Standard => {
+            if w % 4 == 0 && h % 4 == 0 && w <= 2048 && h <= 1152 && w >= 4 && h >= 4 {
+                opts.push(Size::StdCustom(w as u16, h as u16));
+            }
+            for fixed in [Size::Sqcif, Size::Qcif, Size::Cif, Size::Cif4, Size::Cif16] {
+                if fixed.dims() == Some((w, h)) {
+                    opts.push(fixed);
+                }
+            }
+        }
+    }
+    *g.pick(&opts)
+}
+
 pub fn gen_inter_pic(g: &mut Gen, cfg: &PicCfg, like: &Header, ptype: PicType, allow_truncation: bool) -> Pic {
-    let hdr = gen_header(g, like.mode, like.version, like.size, ptype);
+    // usually the size is spelled as in the earlier picture; sometimes the same dimensions are
+    // signalled in another way (a predicted picture must only match its reference's dimensions)
+    let size = if g.chance(1, 6) { respell(g, like.mode, like.size) } else { like.size };
+    let hdr = gen_header(g, like.mode, like.version, size, ptype);
     let (mbw, mbh) = hdr.mb_dims().unwrap();
     let total = mbw * mbh;
     let odds = detail_odds(total, cfg);
